@@ -518,8 +518,12 @@ def _replay(rep):
     scn = sched.install_solo(ref, tables[ref])
     sol = sched.solo(scn)
     dev = {int(i): int(t) for i, t in c["schedule"]}
-    trace, results = sched.scheduler().execute(scn.jobs(), dev)
     print("scenario:", scn.name)
+    try:
+        trace, results = sched.scheduler().execute(scn.jobs(), dev)
+    except sched.Divergence as e:
+        print("the recorded schedule does not fit this execution:", e)
+        return 1
     print("schedule (decision index -> task, otherwise keep running):", sorted(dev.items()))
     order = []
     for d in trace:
